@@ -187,3 +187,88 @@ func c19KeyBufSub() *engine.Sub {
 		},
 	}
 }
+
+// ---- keys that are valid although a sloppy all-zero test would refuse them ----
+
+type c19OddKeyCase struct {
+	Key   int  `json:"key"`
+	AsStr bool `json:"as_str"`
+}
+
+func c19OddKeys() (names []string, keys [][]byte) {
+	add := func(n string, k []byte) { names, keys = append(names, n), append(keys, k) }
+	k := make([]byte, 32)
+	k[0] = 1
+	add("only-first-byte-set", append([]byte{}, k...))
+	k = make([]byte, 32)
+	k[31] = 0x80
+	add("only-last-bit-set", append([]byte{}, k...))
+	k = make([]byte, 32)
+	k[0] = 1
+	for i := 8; i < 16; i++ {
+		k[i] = 0xff
+	}
+	add("64-bit-lanes-sum-to-zero", append([]byte{}, k...)) // 1 + (2^64-1) + 0 + 0 = 0 mod 2^64
+	k = make([]byte, 32)
+	k[0], k[4] = 1, 0xff
+	k[5], k[6], k[7] = 0xff, 0xff, 0xff
+	k[1], k[2], k[3] = 0, 0, 0
+	add("32-bit-lanes-sum-to-zero", func() []byte { x := make([]byte, 32); x[0] = 1; x[4], x[5], x[6], x[7] = 0xff, 0xff, 0xff, 0xff; return x }())
+	add("bytes-sum-to-zero", func() []byte { x := make([]byte, 32); x[0], x[1] = 1, 0xff; return x }())
+	add("two-equal-halves", append(bytes.Repeat([]byte{0xa5, 0x01}, 8), bytes.Repeat([]byte{0xa5, 0x01}, 8)...)) // XOR of the halves is zero
+	add("four-equal-lanes", bytes.Repeat([]byte{1, 2, 3, 4, 5, 6, 7, 8}, 4))
+	add("all-bytes-0x01", bytes.Repeat([]byte{1}, 32))
+	add("all-bytes-0xff", bytes.Repeat([]byte{0xff}, 32))
+	add("first-half-zero", append(make([]byte, 16), bytes.Repeat([]byte{7}, 16)...))
+	add("second-half-zero", append(bytes.Repeat([]byte{7}, 16), make([]byte, 16)...))
+	add("ascii-text", []byte("0123456789abcdef0123456789abcdef"))
+	add("ascii-zeros", bytes.Repeat([]byte{'0'}, 32))
+	return
+}
+
+func c19OddKeySub() *engine.Sub {
+	names, keys := c19OddKeys()
+	return &engine.Sub{
+		Name:   "valid-keys-of-unusual-shape",
+		Serial: true,
+		Rule:   "32-byte keys that are not all-zero but look degenerate to a sloppy test - one bit set, lanes or bytes that sum to zero, equal halves (XOR zero), a zero half, repeated bytes, ASCII text: AddEncrypted accepts each, the same key returns the value unchanged (string and bytes), the all-zero key and a one-bit neighbour do not; non-trivial = all",
+		Bound:  func(string) string { return fmt.Sprintf("%d keys x {string, bytes}", len(keys)) },
+		Gen: func(tier string, emit func(any) bool) {
+			for i := range keys {
+				for _, s := range []bool{false, true} {
+					if !emit(&c19OddKeyCase{i, s}) {
+						return
+					}
+				}
+			}
+		},
+		NewCase: func() any { return &c19OddKeyCase{} },
+		Run: func(ctx *engine.Ctx, c any) {
+			cs := c.(*c19OddKeyCase)
+			key := keys[cs.Key]
+			pt := []byte("a value of some length")
+			m := meta.NewMeta()
+			ctx.States(1)
+			ctx.Nontrivial(1)
+			ctx.Eval(3)
+			ctx.Trans(2)
+			if err := c19Add(m, "k", pt, cs.AsStr, key); err != nil {
+				ctx.Outcome("valid-key-refused")
+				ctx.Failf(cs, "valid-key-refused/"+names[cs.Key], "AddEncrypted refuses the valid key %q (%x): %v", names[cs.Key], key, err)
+				return
+			}
+			got, err := c19Get(m, "k", cs.AsStr, key)
+			if err != nil || !bytes.Equal(got, pt) {
+				ctx.Outcome("roundtrip-fails")
+				ctx.Failf(cs, "roundtrip/"+names[cs.Key], "the value does not come back with the key %q: %v", names[cs.Key], err)
+				return
+			}
+			other := append([]byte{}, key...)
+			other[17] ^= 4
+			if _, err := c19Get(m, "k", cs.AsStr, other); err == nil {
+				ctx.Failf(cs, "wrong-key-returns-data/"+names[cs.Key], "a key one bit away from %q decrypts the value", names[cs.Key])
+			}
+			ctx.Outcome("ok")
+		},
+	}
+}
